@@ -1693,7 +1693,28 @@ class Interp:
             k = self._name_key(nm)
             if k in st.env:
                 captured.append((nm, st.env[k]))
+        if not hasattr(self, "_lambda_nodes"):
+            self._lambda_nodes = {}
+        self._lambda_nodes[self.tag(e)] = (e, self.frame.fn)
         return [(("lambda", self.tag(e), tuple(captured)), st)]
+
+    def _lambda_function(self, tag: int) -> Optional[FuncInfo]:
+        """`lambda a, b: expr` as the nested function `def _lambda(a, b): return expr` of the function that wrote it (the same
+        thing: parameters, defaults evaluated at definition, free names looked up in the defining scope)."""
+        got = getattr(self, "_lambda_nodes", {}).get(tag)
+        if got is None:
+            return None
+        node, owner = got
+        cache = self.__dict__.setdefault("_lambda_funcs", {})
+        if tag not in cache:
+            if any(isinstance(n, (ast.Yield, ast.YieldFrom, ast.Await)) for n in ast.walk(node.body)):
+                cache[tag] = None
+            else:
+                ret = ast.copy_location(ast.Return(value=node.body), node)
+                fd = ast.copy_location(ast.FunctionDef(name="_lambda", args=node.args, body=[ret], decorator_list=[], returns=None, type_comment=None), node)
+                ast.fix_missing_locations(fd)
+                cache[tag] = FuncInfo("_lambda", f"{owner.qualname}.<lambda#{tag}>", owner.module, fd, owner.cls, owner)
+        return cache[tag]
 
     def e_Await(self, e: ast.Await, st, out):
         res = []
@@ -1899,6 +1920,9 @@ class Interp:
         elif cv[0] == "closure":
             fi = self.p.func(cv[1])
             captured = cv[2]
+        elif cv[0] == "lambda" and self._lambda_function(cv[1]) is not None:
+            fi = self._lambda_function(cv[1])
+            captured = cv[2]
         elif cv[0] == "attr" and cv[1][0] in ("param",) and cv[1][1] in ("self", "cls"):
             # a bound method that travelled as a value (functools.partial(self._m, x), h = self._m; h()): the method of the
             # receiver class of the analysis, as `self._m(...)` written in place would be
@@ -1932,6 +1956,16 @@ class Interp:
                 m_ = None
             if m_ is not None and not any(d in ("staticmethod", "classmethod", "property") for d in m_.decorators):
                 fi, recv = m_, cv[1]
+                cv = ("func", m_.fq)
+        elif meta is None and cv[0] == "attr" and cv[1][0] == "global" and self._singleton_class(cv[1]) is not None:
+            # a method of a module-level singleton `NAME = _PrivateClass()`
+            try:
+                sc_ = self.p.cls(self._singleton_class(cv[1]))
+                m_ = self.p.find_method(sc_, cv[2]) if sc_.name.startswith("_") else None
+            except Exception:
+                m_ = None
+            if m_ is not None and not any(d in ("property", "classmethod") for d in m_.decorators):
+                fi, recv = m_, (None if "staticmethod" in m_.decorators else cv[1])
                 cv = ("func", m_.fq)
         elif meta is None and cv[0] == "obj":
             try:
@@ -2014,9 +2048,23 @@ class Interp:
         bases = [ast.unparse(b) for b in ci.base_exprs]
         if any(b.split(".")[-1] == "NamedTuple" for b in bases):
             return "record"
+        # a private FROZEN dataclass without __post_init__ / custom __init__ is the same thing: fields fixed at construction
+        if ci.name.startswith("_") and not ci.name.startswith("__") and len(ci.node.decorator_list) == 1 and all(b in ("object",) for b in bases) \
+                and "__init__" not in dict.keys(ci.methods) and "__post_init__" not in dict.keys(ci.methods) and "__new__" not in dict.keys(ci.methods):
+            d = ci.node.decorator_list[0]
+            if isinstance(d, ast.Call) and ast.unparse(d.func).split(".")[-1] == "dataclass" and any(k.arg == "frozen" and isinstance(k.value, ast.Constant) and k.value.value is True for k in d.keywords) \
+                    and not any(k.arg in ("init",) for k in d.keywords):
+                return "record"
         if ci.name.startswith("_") and not ci.name.startswith("__") and not getattr(ci.node, "keywords", None) and not ci.node.decorator_list \
                 and all(b in ("object",) or b.startswith("Generic[") or b.startswith("typing.Generic[") for b in bases):
             return "object"
+        # a private plain (mutable) dataclass: a holder object whose synthesised __init__ stores the arguments / defaults in its fields
+        if ci.name.startswith("_") and not ci.name.startswith("__") and not getattr(ci.node, "keywords", None) and len(ci.node.decorator_list) == 1 \
+                and all(b in ("object",) for b in bases) and not ({"__init__", "__post_init__", "__new__", "__setattr__"} & set(dict.keys(ci.methods))):
+            d = ci.node.decorator_list[0]
+            dn = ast.unparse(d.func if isinstance(d, ast.Call) else d).split(".")[-1]
+            if dn == "dataclass" and (not isinstance(d, ast.Call) or all(k.arg in ("eq", "repr", "order") for k in d.keywords)):
+                return "dataobject"
         return None
 
     def _construct(self, cv: Value, args, kwargs, node: ast.Call, st: State, out: Outcome):
@@ -2051,6 +2099,40 @@ class Interp:
                     vals[n_] = dv[0][0]
             return [(("record", ci.fq, tuple((n_, vals[n_]) for n_ in fields)), st)]
         obj = ("obj", ci.fq, self.tag(node))
+        if kind == "dataobject":
+            fields = [n_ for n_, a_ in ci.ann.items() if "ClassVar" not in ast.unparse(a_)] if all(isinstance(a_, ast.AST) for a_ in ci.ann.values()) else list(ci.ann.keys())
+            if not fields or len(args) > len(fields):
+                return None
+            vals = {}
+            for n_, a in zip(fields, args):
+                vals[n_] = a
+            for k, v in kwargs:
+                if k not in fields or k in vals:
+                    return None
+                vals[k] = v
+            st_ = st
+            for n_ in fields:
+                if n_ not in vals:
+                    d = ci.attrs.get(n_)
+                    if d is None:
+                        return None
+                    if isinstance(d, ast.Call) and ast.unparse(d.func).split(".")[-1] == "field":
+                        kw_ = {k.arg: k.value for k in d.keywords}
+                        if d.args or set(kw_) - {"default", "default_factory", "repr", "compare", "hash"}:
+                            return None
+                        if "default" in kw_:
+                            d = kw_["default"]
+                        elif "default_factory" in kw_:
+                            d = ast.copy_location(ast.Call(func=kw_["default_factory"], args=[], keywords=[]), d)
+                            ast.fix_missing_locations(d)
+                        else:
+                            return None
+                    dvs, _ = self.eval(d, State({}, frozenset(), st.cs))
+                    if len(dvs) != 1:
+                        return None
+                    vals[n_] = dvs[0][0]
+                st_ = st_.set(("H", ("attr", obj, n_)), vals[n_])
+            return [(obj, st_)]
         init = self.p.find_method(ci, "__init__")
         if init is None:
             return [(obj, st)] if not args and not kwargs else None
